@@ -19,6 +19,15 @@
       (possibly signed or a constant expression of such literals), is substituted by its value where it is read
       (undoes "give the magic number a name")
 
+  (l) `a, b = x, y`  ->  `a = x; b = y`   when no later right-hand side reads an earlier target and the right-hand sides are call-free
+  (m) `t = a if c else b`  <->  `if c: t = a else: t = b`   towards the form the reference tree uses for that target (ref_locals.json, "ifexp"/"ifstmt" lists)
+  (n) `if E:` / `if not E:`  ->  `if len(E) != 0:` / `if len(E) == 0:`   when the reference tree spells that test with len() (E was sized there)
+
+  (o) `f(a, y=c, x=b)` -> `f(a, b, c)` for calls of repository functions / constructors whose simple name has one signature in the whole tree and whose
+      keywords fill the next positions without a gap
+  (p) two adjacent, mutually independent, call-free assignments to locals are put into the order the reference tree binds those locals
+  (q) `if c: …return` followed by the rest of the block  <->  `if c: …return else: rest`, towards the shape the reference tree has for that test
+
 (c) is a pure renaming: it is applied only when it is capture-free (the reference name is not otherwise used in the function).
 The rules therefore see the same program whether a developer renamed `index` to `pos`, rewrote `x += 1` as `x = x + 1` or swapped
 the arms of an `if`. Line numbers are untouched.
@@ -337,6 +346,20 @@ def normalise_locals(relpath: str, tree: ast.Module) -> int:
                 rl = ref.get(key + "::<")
                 if rl:
                     _orient_order_compares(st, rl)
+                if (key + "::ifexp") in ref or (key + "::ifstmt") in ref:
+                    _orient_ifexp(st, ref.get(key + "::ifexp", []), ref.get(key + "::ifstmt", []))
+                rn = ref.get(key + "::len")
+                if rn:
+                    _orient_len_tests(st, rn)
+                re_ = ref.get(key + "::else")
+                if re_:
+                    _orient_else_shapes(st, re_)
+                rp = ref.get(key + "::order")
+                if rp:
+                    _order_independent_assigns(st, rp)
+                rcs = ref.get(key + "::calls")
+                if rcs and SIGNATURES:
+                    _orient_calls(st, SIGNATURES, rcs)
                 rb = ref.get(key + "::bool")
                 if rb:
                     _orient_boolops(st, rb)
@@ -405,8 +428,255 @@ def _inline_new_module_constants(relpath: str, tree: ast.Module) -> None:
                  and not (isinstance(st, ast.AnnAssign) and isinstance(st.target, ast.Name) and st.target.id in consts)]
 
 
+def _split_tuple_assigns(tree: ast.Module) -> None:
+    for p in ast.walk(tree):
+        for fld in ("body", "orelse", "finalbody"):
+            lst = getattr(p, fld, None)
+            if not isinstance(lst, list):
+                continue
+            i = 0
+            while i < len(lst):
+                st = lst[i]
+                if isinstance(st, ast.Assign) and len(st.targets) == 1 and isinstance(st.targets[0], ast.Tuple) and isinstance(st.value, ast.Tuple) \
+                        and len(st.targets[0].elts) == len(st.value.elts) and all(isinstance(t, ast.Name) for t in st.targets[0].elts):
+                    tg, vs = st.targets[0].elts, st.value.elts
+                    ok = not any(isinstance(x, (ast.Call, ast.Await, ast.NamedExpr, ast.Starred)) for v in vs for x in ast.walk(v))
+                    for a in range(len(tg)):
+                        for b in range(a + 1, len(vs)):
+                            if any(isinstance(x, ast.Name) and x.id == tg[a].id for x in ast.walk(vs[b])):
+                                ok = False
+                    if ok and len({t.id for t in tg}) == len(tg):
+                        new = [ast.copy_location(ast.Assign(targets=[t], value=v), st) for t, v in zip(tg, vs)]
+                        lst[i:i + 1] = new
+                        i += len(new)
+                        continue
+                i += 1
+
+
+def _ifexp_forms(fn: ast.FunctionDef):
+    """targets (dump, Load-normalised) assigned by `t = a if c else b` and by `if c: t = a else: t = b` in this function."""
+    ex, stmt = [], []
+    for n in ast.walk(fn):
+        if isinstance(n, ast.Assign) and len(n.targets) == 1 and isinstance(n.value, ast.IfExp) and isinstance(n.targets[0], (ast.Name, ast.Attribute)):
+            ex.append(ast.dump(n.targets[0]))
+        if isinstance(n, ast.If) and len(n.body) == 1 and len(n.orelse) == 1 and isinstance(n.body[0], ast.Assign) and isinstance(n.orelse[0], ast.Assign) \
+                and len(n.body[0].targets) == 1 and len(n.orelse[0].targets) == 1 and ast.dump(n.body[0].targets[0]) == ast.dump(n.orelse[0].targets[0]) \
+                and isinstance(n.body[0].targets[0], (ast.Name, ast.Attribute)):
+            stmt.append(ast.dump(n.body[0].targets[0]))
+    return ex, stmt
+
+
+def _orient_ifexp(fn: ast.FunctionDef, ref_ex: List[str], ref_stmt: List[str]) -> None:
+    for p in ast.walk(fn):
+        for fld in ("body", "orelse", "finalbody"):
+            lst = getattr(p, fld, None)
+            if not isinstance(lst, list):
+                continue
+            for i, n in enumerate(lst):
+                if isinstance(n, ast.Assign) and len(n.targets) == 1 and isinstance(n.value, ast.IfExp) and isinstance(n.targets[0], (ast.Name, ast.Attribute)):
+                    d = ast.dump(n.targets[0])
+                    if d not in ref_ex and d in ref_stmt:
+                        import copy
+                        new_if = ast.copy_location(ast.If(test=n.value.test, body=[ast.copy_location(ast.Assign(targets=[n.targets[0]], value=n.value.body), n)],
+                                                          orelse=[ast.copy_location(ast.Assign(targets=[copy.deepcopy(n.targets[0])], value=n.value.orelse), n)]), n)
+                        lst[i] = _Canon().visit_If(new_if)
+                elif isinstance(n, ast.If) and len(n.body) == 1 and len(n.orelse) == 1 and isinstance(n.body[0], ast.Assign) and isinstance(n.orelse[0], ast.Assign) \
+                        and len(n.body[0].targets) == 1 and len(n.orelse[0].targets) == 1 and ast.dump(n.body[0].targets[0]) == ast.dump(n.orelse[0].targets[0]) \
+                        and isinstance(n.body[0].targets[0], (ast.Name, ast.Attribute)):
+                    d = ast.dump(n.body[0].targets[0])
+                    if d not in ref_stmt and d in ref_ex:
+                        lst[i] = ast.copy_location(ast.Assign(targets=[n.body[0].targets[0]], value=ast.IfExp(test=n.test, body=n.body[0].value, orelse=n.orelse[0].value)), n)
+
+
+def _len_tests(fn: ast.FunctionDef) -> List[str]:
+    out = []
+    for n in ast.walk(fn):
+        if isinstance(n, (ast.If, ast.While)):
+            t = n.test
+            if isinstance(t, ast.Compare) and len(t.ops) == 1 and isinstance(t.left, ast.Call) and isinstance(t.left.func, ast.Name) and t.left.func.id == "len" \
+                    and len(t.left.args) == 1 and isinstance(t.comparators[0], ast.Constant) and t.comparators[0].value == 0 and isinstance(t.ops[0], (ast.Eq, ast.NotEq, ast.Gt)):
+                out.append(type(t.ops[0]).__name__ + "|" + ast.dump(t.left.args[0]))
+    return out
+
+
+def _orient_len_tests(fn: ast.FunctionDef, ref_len: List[str]) -> None:
+    by = {}
+    for k in ref_len:
+        op, d = k.split("|", 1)
+        by.setdefault(d, op)
+    for n in ast.walk(fn):
+        if isinstance(n, (ast.If, ast.While)):
+            t = n.test
+            neg = False
+            if isinstance(t, ast.UnaryOp) and isinstance(t.op, ast.Not):
+                t, neg = t.operand, True
+            if isinstance(t, (ast.Name, ast.Attribute, ast.Subscript)) and ast.dump(t) in by:
+                op = by[ast.dump(t)]
+                call = ast.Call(func=ast.Name("len", ast.Load()), args=[t], keywords=[])
+                if neg:
+                    new = ast.Compare(left=call, ops=[ast.Eq()], comparators=[ast.Constant(0)])
+                else:
+                    new = ast.Compare(left=call, ops=[ast.Gt() if op == "Gt" else ast.NotEq()], comparators=[ast.Constant(0)])
+                if op == "Eq" and not neg:
+                    # reference spells the emptiness test; the positive form is `not (len(E) == 0)`: keep as != 0
+                    pass
+                n.test = ast.copy_location(new, n.test)
+                ast.fix_missing_locations(n.test)
+
+
+def signature_table(trees: Dict[str, ast.Module]) -> Dict[str, List[str]]:
+    """simple name -> parameter names (without self) when every repository function / constructor of that name has the same signature."""
+    cands: Dict[str, List[List[str]]] = {}
+    for t in trees.values():
+        for n in ast.walk(t):
+            if isinstance(n, ast.ClassDef):
+                for st in n.body:
+                    if isinstance(st, ast.FunctionDef):
+                        ps = [a.arg for a in st.args.args]
+                        if st.args.vararg or st.args.posonlyargs or st.args.kwarg:
+                            ps = None
+                        elif ps and ps[0] in ("self", "cls"):
+                            ps = ps[1:]
+                        cands.setdefault(n.name if st.name == "__init__" else st.name, []).append(ps)
+        for st in t.body:
+            if isinstance(st, ast.FunctionDef):
+                ps = None if (st.args.vararg or st.args.posonlyargs or st.args.kwarg) else [a.arg for a in st.args.args]
+                cands.setdefault(st.name, []).append(ps)
+    return {k: v[0] for k, v in cands.items() if all(x is not None for x in v) and len({tuple(x) for x in v}) == 1}
+
+
+def _call_shapes(fn: ast.FunctionDef, table: Dict[str, List[str]]) -> Dict[str, List]:
+    """callee simple name -> [n positional, [keyword names]] when every call of that callee in the function has the same shape."""
+    seen: Dict[str, set] = {}
+    for n in ast.walk(fn):
+        if isinstance(n, ast.Call):
+            name = n.func.id if isinstance(n.func, ast.Name) else (n.func.attr if isinstance(n.func, ast.Attribute) else None)
+            if name in table and all(k.arg is not None for k in n.keywords) and not any(isinstance(a, ast.Starred) for a in n.args):
+                seen.setdefault(name, set()).add((len(n.args), tuple(k.arg for k in n.keywords)))
+    return {k: [next(iter(v))[0], list(next(iter(v))[1])] for k, v in seen.items() if len(v) == 1}
+
+
+def _orient_calls(fn: ast.FunctionDef, table: Dict[str, List[str]], ref_shapes: Dict[str, List]) -> None:
+    """Re-express a call of a repository function in the positional / keyword shape the reference tree uses for that callee in this function."""
+    for n in ast.walk(fn):
+        if not isinstance(n, ast.Call) or any(isinstance(a, ast.Starred) for a in n.args) or not all(k.arg is not None for k in n.keywords):
+            continue
+        name = n.func.id if isinstance(n.func, ast.Name) else (n.func.attr if isinstance(n.func, ast.Attribute) else None)
+        ps = table.get(name) if name else None
+        shape = ref_shapes.get(name) if name else None
+        if not ps or not shape:
+            continue
+        npos, kws = shape
+        if (len(n.args), [k.arg for k in n.keywords]) == (npos, kws):
+            continue
+        if len(n.args) > len(ps):
+            continue
+        bind = {ps[i]: a for i, a in enumerate(n.args)}
+        ok = True
+        for k in n.keywords:
+            if k.arg in bind or k.arg not in ps:
+                ok = False
+            bind[k.arg] = k.value
+        want_params = ps[:npos] + kws
+        if not ok or set(bind) != set(want_params) or len(want_params) != len(set(want_params)):
+            continue
+        n.args = [bind[p] for p in ps[:npos]]
+        n.keywords = [ast.keyword(arg=k, value=bind[k]) for k in kws]
+
+
+def _simple_assign(st) -> Optional[str]:
+    """target name of a call-free assignment / augmented assignment to a local"""
+    if isinstance(st, ast.Assign) and len(st.targets) == 1 and isinstance(st.targets[0], ast.Name):
+        t, v = st.targets[0].id, st.value
+    elif isinstance(st, ast.AugAssign) and isinstance(st.target, ast.Name):
+        t, v = st.target.id, st.value
+    else:
+        return None
+    if any(isinstance(x, (ast.Call, ast.Await, ast.NamedExpr, ast.Subscript)) for x in ast.walk(v)):
+        return None
+    return t
+
+
+def _independent(a, b) -> bool:
+    ta, tb = _simple_assign(a), _simple_assign(b)
+    if ta is None or tb is None or ta == tb:
+        return False
+    ra = {x.id for x in ast.walk(a.value) if isinstance(x, ast.Name)} | ({ta} if isinstance(a, ast.AugAssign) else set())
+    rb = {x.id for x in ast.walk(b.value) if isinstance(x, ast.Name)} | ({tb} if isinstance(b, ast.AugAssign) else set())
+    return ta not in rb and tb not in ra
+
+
+def _adjacent_pairs(fn: ast.FunctionDef) -> List[List[str]]:
+    out = []
+    for p in ast.walk(fn):
+        for fld in ("body", "orelse", "finalbody"):
+            lst = getattr(p, fld, None)
+            if isinstance(lst, list):
+                for i in range(len(lst) - 1):
+                    if _independent(lst[i], lst[i + 1]):
+                        out.append([ast.dump(lst[i]), ast.dump(lst[i + 1])])
+    return out
+
+
+def _order_independent_assigns(fn: ast.FunctionDef, ref_pairs: List[List[str]]) -> None:
+    refset = {(a, b) for a, b in ref_pairs}
+    for p in ast.walk(fn):
+        for fld in ("body", "orelse", "finalbody"):
+            lst = getattr(p, fld, None)
+            if not isinstance(lst, list):
+                continue
+            for _round in range(4):
+                changed = False
+                for i in range(len(lst) - 1):
+                    a, b = lst[i], lst[i + 1]
+                    if _independent(a, b):
+                        da, db = ast.dump(a), ast.dump(b)
+                        if (db, da) in refset and (da, db) not in refset:
+                            lst[i], lst[i + 1] = b, a
+                            changed = True
+                if not changed:
+                    break
+
+
+_JUMPS = (ast.Return, ast.Continue, ast.Raise, ast.Break)
+
+
+def _else_shapes(fn: ast.FunctionDef) -> Dict[str, bool]:
+    """test dump -> has a (non-elif) else, for ifs whose body ends in a jump; tests occurring with both shapes are left out."""
+    seen: Dict[str, set] = {}
+    for n in ast.walk(fn):
+        if isinstance(n, ast.If) and n.body and isinstance(n.body[-1], _JUMPS):
+            seen.setdefault(ast.dump(n.test), set()).add(bool(n.orelse))
+    return {k: next(iter(v)) for k, v in seen.items() if len(v) == 1}
+
+
+def _orient_else_shapes(fn: ast.FunctionDef, ref_shape: Dict[str, bool]) -> None:
+    for p in ast.walk(fn):
+        for fld in ("body", "orelse", "finalbody"):
+            lst = getattr(p, fld, None)
+            if not isinstance(lst, list):
+                continue
+            i = 0
+            while i < len(lst):
+                n = lst[i]
+                if isinstance(n, ast.If) and n.body and isinstance(n.body[-1], _JUMPS):
+                    want = ref_shape.get(ast.dump(n.test))
+                    if want is True and not n.orelse and i < len(lst) - 1:
+                        n.orelse = lst[i + 1:]
+                        del lst[i + 1:]
+                    elif want is False and n.orelse:
+                        tail = n.orelse
+                        n.orelse = []
+                        lst[i + 1:i + 1] = tail
+                i += 1
+
+
+SIGNATURES: Dict[str, List[str]] = {}
+
+
 def canonicalise(relpath: str, tree: ast.Module) -> ast.Module:
     _inline_new_module_constants(relpath, tree)
+    _split_tuple_assigns(tree)
     tree = _Canon().visit(tree)
     normalise_locals(relpath, tree)
     ast.fix_missing_locations(tree)
@@ -417,6 +687,12 @@ def build_reference(root: str) -> Dict[str, List[str]]:
     """Tool: compute the reference table from a tree (run by hand, result committed as vt/ref_locals.json)."""
     out = {}
     pk = os.path.join(root, "tlexport")
+    raws = {}
+    for dirpath, dirnames, filenames in os.walk(pk):
+        for fn in sorted(filenames):
+            if fn.endswith(".py"):
+                raws[os.path.relpath(os.path.join(dirpath, fn), root)] = ast.parse(open(os.path.join(dirpath, fn)).read())
+    sigs = signature_table(raws)
     for dirpath, dirnames, filenames in os.walk(pk):
         dirnames[:] = sorted(d for d in dirnames if d != "__pycache__")
         for fn in sorted(filenames):
@@ -427,6 +703,7 @@ def build_reference(root: str) -> Dict[str, List[str]]:
             raw = ast.parse(open(path).read())
             out[f"{rel}::module-names"] = sorted({t.id for st in raw.body if isinstance(st, (ast.Assign, ast.AnnAssign))
                                                   for t in (st.targets if isinstance(st, ast.Assign) else [st.target]) if isinstance(t, ast.Name)})
+            _split_tuple_assigns(raw)
             t = _Canon().visit(raw)
 
             def visit(body, prefix):
@@ -440,6 +717,23 @@ def build_reference(root: str) -> Dict[str, List[str]]:
                                        if isinstance(n, ast.Compare) and len(n.ops) == 1 and isinstance(n.ops[0], (ast.Eq, ast.NotEq))})
                         if cmps:
                             out[f"{rel}::{prefix}{st.name}::=="] = cmps
+                        ex, stm = _ifexp_forms(st)
+                        if ex:
+                            out[f"{rel}::{prefix}{st.name}::ifexp"] = sorted(set(ex))
+                        if stm:
+                            out[f"{rel}::{prefix}{st.name}::ifstmt"] = sorted(set(stm))
+                        prs = _adjacent_pairs(st)
+                        if prs:
+                            out[f"{rel}::{prefix}{st.name}::order"] = prs
+                        cs = _call_shapes(st, sigs)
+                        if cs:
+                            out[f"{rel}::{prefix}{st.name}::calls"] = cs
+                        es = _else_shapes(st)
+                        if es:
+                            out[f"{rel}::{prefix}{st.name}::else"] = es
+                        lens = _len_tests(st)
+                        if lens:
+                            out[f"{rel}::{prefix}{st.name}::len"] = sorted(set(lens))
                         lts = sorted({_lt_key(n.ops[0], n.left, n.comparators[0]) for n in ast.walk(st)
                                       if isinstance(n, ast.Compare) and len(n.ops) == 1 and type(n.ops[0]) in _FLIP})
                         if lts:
